@@ -118,7 +118,7 @@ func blockWL(x *mon.Ctx) {
 		for _, gn := range gens {
 			n := gn.n
 			if gn.name == "rand" {
-				n = x.Scale(4000, 200000)
+				n = x.Scale(4000, 1500000)
 			}
 			if gn.name == "pos" && role == "both" {
 				continue
@@ -129,7 +129,7 @@ func blockWL(x *mon.Ctx) {
 					continue
 				}
 				hi := i%2 == 0
-				c.Class("block/%s/%s/%d", role, gn.name, bucket(i, gn.n))
+				c.Class("block/%s/%s/%d", role, gn.name, bucket(i, n))
 				v := gn.f(i, c.R)
 				key, pt := fixed, fixed
 				switch role {
@@ -159,7 +159,7 @@ func bucket(i, n int) int {
 func batchWL(x *mon.Ctx) {
 	selftest(x)
 	g1, g2 := mon.NewGuard(8192), mon.NewGuard(8192)
-	reps := x.Scale(12, 400)
+	reps := x.Scale(12, 2500)
 	for n := 1; n <= 40; n++ {
 		for rep := 0; rep < reps; rep++ {
 			for _, alias := range []string{"disjoint", "inplace"} {
